@@ -25,7 +25,7 @@ type msgOp struct {
 	By   []byte
 }
 
-var msgOpKinds = []string{"seq", "mtype", "method", "status", "codec", "body", "newbody", "size", "metaadd", "metaset", "metadel", "metaparse", "pipe", "ctx", "unpack", "pack"}
+var msgOpKinds = []string{"seq", "mtype", "method", "status", "codec", "body", "newbody", "size", "metaadd", "metaset", "metadel", "metaparse", "pipe", "ctx", "unpack", "pack", "unmarshal", "rawunpack"}
 
 func genMsgOps(t *rapid.T, label string, max int) []msgOp {
 	n := rapid.IntRange(0, max).Draw(t, label+".n")
@@ -86,6 +86,18 @@ func applyMsgOp(m socket.Message, op msgOp) {
 		}
 	case "pack":
 		socket.RawProtoFunc(&vt.RW{}).Pack(m)
+	case "unmarshal":
+		// decode body bytes into whatever the message currently binds (nothing, on a message
+		// whose user set neither a body nor a binder)
+		m.UnmarshalBody(op.By)
+	case "rawunpack":
+		// a reader that starts from a reset message but installs no binder
+		src := vt.Msg{Seq: op.N, Mtype: 1 + op.B%3, Method: "/" + op.S, Codec: 's', Body: op.By}
+		wrw := &vt.RW{}
+		if err := socket.RawProtoFunc(wrw).Pack(src.Build()); err == nil {
+			m.Reset()
+			socket.RawProtoFunc(&vt.RW{In: wrw.Written()}).Unpack(m)
+		}
 	}
 }
 
@@ -113,7 +125,7 @@ func packBytes(m socket.Message) string {
 }
 
 func TestC20Message(t *testing.T) {
-	rec := vt.NewRec(t, "C20", "message", "dirtying op sequence (every public setter, metadata add/set/del/parse, pipe append, context, unpack-from-frame, pack) on a message, then Reset / PutMessage+GetMessage, then a generated next-user op sequence applied to the recycled message and to NewMessage(): all getters must agree after every step and the packed bytes must be identical; non-trivial = the dirtying sequence touched >=3 distinct field kinds; pool reuse is measured; distinct by both sequences")
+	rec := vt.NewRec(t, "C20", "message", "dirtying op sequence (every public setter, metadata add/set/del/parse, pipe append, context, body binder, unpack-from-frame with and without installing a binder, UnmarshalBody, pack) on a message, then Reset / PutMessage+GetMessage, then a generated next-user op sequence applied to the recycled message and to NewMessage(): all getters must agree after every step and the packed bytes must be identical; non-trivial = the dirtying sequence touched >=3 distinct field kinds; pool reuse is measured; distinct by both sequences")
 	reused, total := 0, 0
 	defer func() { rec.Note("message pool returned the dirtied object in %d of %d cases", reused, total) }()
 	old := debug.SetGCPercent(-1)
